@@ -96,6 +96,8 @@ FLAGROLES = {
     "addq %rax, %rbx": ("", ARITH), "addq $8, %rax": ("", ARITH), "addl %ebx, %ecx": ("", ARITH), "addl $1, %ebp": ("", ARITH), "subq %rdx, %rsi": ("", ARITH),
     "cmpq %rax, %rbx": ("", ARITH), "incq %rbx": ("", "OF SF ZF AF PF"), "decl %edi": ("", "OF SF ZF AF PF"),
     "movq %rbx, %rcx": ("", ""), "leaq 8(%rax,%rbx,4), %rcx": ("", ""), "vaddpd %xmm0, %xmm1, %xmm2": ("", ""),
+    # add / subtract with carry read the carry flag (Intel SDM: DEST := DEST + SRC + CF) and set all arithmetic flags
+    "adcq %rax, %rbx": ("CF", ARITH), "adcq $0, %r8": ("CF", ARITH), "sbbq %rax, %rbx": ("CF", ARITH),
 }
 
 
